@@ -320,6 +320,13 @@ example : (udpStep .server twoUsers crossUserAck.1 crossUserAck.2).outcome = .dr
 /-- the same with a close request: before the repair a panic, now a drop (bob cannot close alice's session) -/
 example : (udpStepWith false .server twoUsers { proto := 4, tsOk := true, sid := 7777 } crossUserAck.2).outcome = .panic ∧
     (udpStep .server twoUsers { proto := 4, tsOk := true, sid := 7777 } crossUserAck.2).outcome = .drop := by decide
+/-- the second face of the same defect: a WRONG-DIRECTION segment from bob (sent from the address his own
+    sessions live at, so no discovery-time direction check applies) naming alice's session used to close
+    alice's session; now it is dropped -/
+example : (udpStepWith false .server twoUsers { proto := 7, tsOk := true, sid := 7777 }
+      { src := 1, keyUser := some "bob", body := { len := 0, payloadAuth := false } }).outcome = .closeSession ∧
+    (udpStep .server twoUsers { proto := 7, tsOk := true, sid := 7777 }
+      { src := 1, keyUser := some "bob", body := { len := 0, payloadAuth := false } }).outcome = .drop := by decide
 /-- the owner's own traffic still flows: alice's ack is delivered, her close request closes her session -/
 example : (udpStep .server twoUsers { proto := 8, tsOk := true, sid := 7777 }
       { src := 99, keyUser := some "alice", body := { len := 0, payloadAuth := false } }).outcome = .deliver ∧
